@@ -275,6 +275,7 @@ type c12Case struct {
 	Posts     string `json:"posts,omitempty"`     // token form of []c12Post
 	Names     string `json:"names,omitempty"`     // driver: file names the k-th file script answers for
 	Src       string `json:"src,omitempty"`       // driver: hex token of the source URL the Fetcher reports
+	Exec      string `json:"exec,omitempty"`      // driver: hex token of an executable name given before the source (`pprof binary profile`)
 	NSrc      int    `json:"nsrc,omitempty"`      // driver: number of sources on the command line (0 = 1); each is a copy of the profile
 }
 
@@ -861,8 +862,11 @@ func c12Profile(r *Rng, o c12GenOpts) *profile.Profile {
 			m.Limit = m.Start + 0x800
 		case r.Chance(4):
 			m.Start, m.Limit = ^uint64(0)-0x1000, ^uint64(0)
+		case r.Chance(7): // no address range, but a file: the fake mapping after `pprof binary profile`
+			m.Start, m.Limit, m.Offset = 0, 0, 0
+			m.File, m.BuildID = r.Pick(c12Files[:4]), r.Pick(c12BuildIDs)
 		}
-		if r.Chance(55) {
+		if r.Chance(55) && m.Limit != ^uint64(0) {
 			m.File = r.Pick(c12Files[:4]) // ordinary binary
 		}
 		if r.Chance(o.symShare) {
